@@ -15,14 +15,18 @@ def lex(a, b):
     return use('osec_lex', [a, b]) + "\n" + use('osec_lex', [b, a])
 
 
-Z = "self"
 N1 = "NTR(self) - 1"
-_entries = ["TR(self, 0)", "TR(self, %s)" % N1]
-MT0 = "\n".join([lex("cs", e + ".civil_sec") + "\n" + lex("cs", e + ".prev_civil_sec") for e in _entries]) + "\n" + \
-      lex("cs", "TY(self, DEFTY(self)).civil_min") + "\n" + lex("cs", "TY(self, TR(self, %s).type_index).civil_max" % N1) + "\n" + \
-      "if (gz_j >= 1 && gz_j < NTR(self)) {\n" + \
-      "\n".join([lex("cs", "TR(self, %s).civil_sec" % j) + "\n" + lex("cs", "TR(self, %s).prev_civil_sec" % j) for j in ("gz_j", "gz_j - 1")]) + "\n}\n" + \
-      'USE(lemma_epoch_REQ(), lemma_epoch_ENS(), "epoch");'
+
+
+def pairs(e):
+    return lex("cs", e + ".civil_sec") + "\n" + lex("cs", e + ".prev_civil_sec")
+
+
+# the order facts each case of the proof needs (contracts/zone.h: MT_CASE); without -DMT_CASE all of them
+MT0 = 'USE(lemma_epoch_REQ(), lemma_epoch_ENS(), "epoch");\n' + \
+      "#if !defined(MT_CASE) || MT_CASE == 1\n" + pairs("TR(self, 0)") + "\n" + lex("cs", "TY(self, DEFTY(self)).civil_min") + "\n" + use('secrepr', ['EPOCHSEC + (Z)TY(self, DEFTY(self)).utc_offset']) + "\n#endif\n" + \
+      "#if !defined(MT_CASE) || MT_CASE == 2\n" + pairs("TR(self, %s)" % N1) + "\n" + lex("cs", "TY(self, TR(self, %s).type_index).civil_max" % N1) + "\n#endif\n" + \
+      "#if !defined(MT_CASE) || MT_CASE == 3\nif (MT_MIDDLE(self, cs)) {\n" + pairs("TR(self, gz_j)") + "\n" + pairs("TR(self, gz_j - 1)") + "\n}\n#endif\n"
 GHOST['MakeTime'] = {0: MT0}
 
 for _f in ('MakeSkipped', 'MakeRepeated'):
